@@ -1,0 +1,41 @@
+//go:build verif
+
+package eval
+
+import (
+	"ti/base"
+	"ti/context"
+)
+
+// VerifNarrow drives the narrowing core of IfUnless (setConditionalCtx, narrowing) on top-level
+// variables, for the verification harness.
+type VerifNarrow struct {
+	i   *IfUnless
+	ctx context.Context
+}
+
+// VerifNewNarrow starts the narrowing state of one conditional ("if" or "unless").
+func VerifNewNarrow(conditionType string) *VerifNarrow {
+	i := &IfUnless{conditionType: conditionType}
+	i.originalTs = make(map[string][]base.T)
+	i.narrowTs = make(map[string][]base.T)
+	i.ifNarrowTs = make(map[string][]base.T)
+
+	return &VerifNarrow{i: i, ctx: context.NewContext("", "", "check")}
+}
+
+// Cond applies one tested atom (`object.is_a?(class)`, `object.nil?` with class NilClass) as getBackupContext does.
+func (v *VerifNarrow) Cond(class, object string, isExclamation, skipNarrow bool) error {
+	t := base.GetDynamicValueT(v.ctx.GetFrame(), v.ctx.GetClass(), v.ctx.GetMethod(), object)
+
+	return v.i.setConditionalCtx(class, object, v.ctx, *t, isExclamation, skipNarrow)
+}
+
+// Else applies narrowing (what Evaluation does on `else` and before an `elsif` condition).
+func (v *VerifNarrow) Else() { v.i.narrowing(v.ctx) }
+
+// Elsif is the reset Evaluation performs when it meets `elsif`.
+func (v *VerifNarrow) Elsif() {
+	v.i.narrowing(v.ctx)
+	v.i.ifNarrowTs = make(map[string][]base.T)
+}
